@@ -245,7 +245,8 @@ def build(case, dask):
                 f, a = fun(F2 if kind == "accumulate" else FRS, f2 if kind == "accumulate" else frs)
                 if k.get("ws"):
                     a = dict(a, with_state=True)          # the node emits (state, result) pairs
-                up = up.accumulate(f, start=start, returns_state=(kind == "accumulate_rs"), **a)
+                # (scan is the documented alias of accumulate: a property returning the stream's own accumulate)
+                up = (up.scan if k.get("via") == "scan" else up.accumulate)(f, start=start, returns_state=(kind == "accumulate_rs"), **a)
             elif kind == "zip_map":
                 f, a = fun(F1, f1)
                 side = up.map(f, **a)
@@ -263,6 +264,9 @@ def build(case, dask):
                 f, a = fun(FS, fs)
                 g, b = fun(FS, fs, name=k["g"], dsalt=3)
                 up = up.starmap(f, **a).union(up.starmap(g, **b))
+            elif kind == "frequencies":
+                # Stream.frequencies(): a convenience built on scan(); the running counts as a sorted tuple of (element, count)
+                up = up.frequencies().map(freq_items)
             elif kind == "regather":
                 # leave the cluster and re-enter it: ... .gather().scatter() ... (locally: nothing)
                 if dask:
@@ -278,7 +282,8 @@ def build(case, dask):
             else:
                 raise common.HarnessError("unknown kind %r" % (kind,))
             if dask and type(up).__module__ != "streamz.dask":
-                raise common.HarnessError("%s on a DaskStream built %r" % (kind, type(up)))
+                # a local node class on a Dask-backed stream would be handed futures instead of values (and has no gather())
+                raise NotDaskBacked("%s on a DaskStream built the local node class %s.%s" % (kind, type(up).__module__, type(up).__name__))
         if dask:
             up = up.gather()
             watch(up, "gather")
@@ -287,6 +292,10 @@ def build(case, dask):
     if not case.get("late"):
         attach()
     return p
+
+
+class NotDaskBacked(Exception):
+    pass
 
 
 async def drive(case, dask):
@@ -436,7 +445,10 @@ def run_cases(cases):
             res = []
             for c in cases:
                 loc = await drive(c, False)
-                dsk = await drive(c, True)
+                try:
+                    dsk = await drive(c, True)
+                except NotDaskBacked as e:
+                    dsk = {"not_dask_backed": str(e)}
                 res.append((loc, dsk))
             return res
         finally:
@@ -453,14 +465,20 @@ def run_cases(cases):
 K_F1 = ["inc", "dbl", "neg", "sum", "pair", "first"]
 
 
+def freq_items(d):
+    return tuple(sorted(d.items(), key=repr))
+
+
 def gen_seg(rng, n):
     """Random segment; tracks whether elements are known to be tuples (starmap needs f(*x))."""
     seg, tup = [], False
     while len(seg) < n:
         kind = rng.choice(["map", "map", "accumulate", "accumulate", "accumulate_rs", "zip_map", "union_map",
-                           "buffer", "partition", "sliding_window", "starmap", "starmap", "zip_map2", "union_starmap2"])
+                           "buffer", "partition", "sliding_window", "starmap", "starmap", "zip_map2", "union_starmap2", "frequencies"])
         if kind in ("starmap", "union_starmap2") and not tup:
             continue
+        if kind == "frequencies" and len(seg) != n - 1:
+            continue            # its output (a tuple of (element, count) pairs of growing length) fits no catalogue function: last stage only
         k = {"k": kind}
         if kind == "map":
             k["f"] = rng.choice(K_F1)
@@ -474,12 +492,16 @@ def gen_seg(rng, n):
             tup = tup and k["f"] == "last" and (k["start"] is None or isinstance(k["start"], dict))
             if rng.random() < 0.25:
                 k["ws"], tup = True, True
+            if rng.random() < 0.3:
+                k["via"] = "scan"
         elif kind == "accumulate_rs":
             k["f"] = rng.choice(sorted(FRS))
             k["start"] = rng.choice([None, 0, 3])
             tup = (k["f"] == "rs_prev") and (tup or k["start"] is not None)
             if rng.random() < 0.25:
                 k["ws"], tup = True, True
+        elif kind == "frequencies":
+            tup = True
         elif kind in ("zip_map", "union_map"):
             k["f"] = rng.choice(K_F1)
             tup = True if kind == "zip_map" else (tup and k["f"] in ("inc", "dbl", "neg", "pair"))
@@ -523,7 +545,7 @@ def gen_fault_case(rng, mode):
     from the first failing task on; and/or a consumer that rejects some results."""
     while True:
         pre = [k for k in gen_seg(rng, rng.choice([0, 1, 1, 2]))]
-        if not any(k["k"] in ("buffer", "union_map", "sliding_window") for k in pre):
+        if not any(k["k"] in ("buffer", "union_map", "union_starmap2", "sliding_window", "frequencies") for k in pre):
             break
     tup = bool(pre) and pre[-1]["k"] in ("zip_map", "partition") or \
         bool(pre) and pre[-1]["k"] == "map" and pre[-1]["f"] == "pair" or \
@@ -549,6 +571,10 @@ def gen_fault_case(rng, mode):
 
 
 CORPUS = [
+    # the convenience spellings of accumulate on a Dask-backed stream: frequencies() and scan()
+    {"mode": "await", "seg": [{"k": "frequencies"}], "xs": [1, 2, 1, 3, 2, 1], "salt": 0, "delays": [0, 1]},
+    {"mode": "buffer", "seg": [{"k": "map", "f": "inc"}, {"k": "accumulate", "f": "add", "start": 0, "via": "scan"}, {"k": "frequencies"}, {"k": "buffer", "n": 4}],
+     "xs": [0, 0, 1, 0, 2], "salt": 2, "delays": [2, 0]},
     # documented usage: buffer before gather, first task much slower than the following ones
     {"mode": "buffer", "seg": [{"k": "map", "f": "inc"}, {"k": "buffer", "n": 8}], "xs": [0, 1, 2, 3, 4, 5],
      "salt": 0, "delays": [40, 0, 0, 0, 0, 0, 0]},
@@ -626,7 +652,7 @@ FAULT_CORPUS = [
 def model_lines(case):
     if is_fault(case):
         return fault_model_lines(case)
-    if any(k["k"] in ("zip_map2", "union_starmap2", "regather") or k.get("ws") for k in case["seg"]):
+    if any(k["k"] in ("zip_map2", "union_starmap2", "regather", "frequencies") or k.get("ws") for k in case["seg"]):
         return []           # two-branch fan-out kinds: model-free oracle only (Model/Dask.lean has one side branch through one map)
     late = case.get("late", 0)
     return [{"op": "reset", "seg": case["seg"]},
@@ -763,6 +789,12 @@ def check_fault_case(ctx, case, loc, dsk, answers=None):
 
 
 def check_case(ctx, case, answers, loc, dsk):
+    if dsk.get("not_dask_backed"):
+        ctx.case(case, nontrivial=True)
+        ctx.failure("dask:node-not-dask-backed", "between scatter() and gather() %s: it would process the futures themselves, not their values "
+                    "(the local pipeline delivers %r)" % (dsk["not_dask_backed"], loc["out"]), case, expected=loc["out"],
+                    oracle="the Dask-backed pipeline delivers what the local one delivers")
+        return
     if is_fault(case):
         return check_fault_case(ctx, case, loc, dsk, answers)
     if loc["stuck"]:
